@@ -107,6 +107,7 @@ structure Resp where
   err : Option Err := none       -- Err
   bodyCached : Bool := false     -- body != nil
   bodyOf : Nat := 0              -- the exchange (tag) whose body `body` holds; meaningful when bodyCached
+  savedOf : Option Nat := none   -- SetOutput / SetOutputFile: the exchange whose body was last copied to the output
   slots : Slots := {}            -- result / error
   deriving DecidableEq, Repr, Inhabited
 
@@ -142,6 +143,10 @@ structure Stack where
   unbounded : Bool := false           -- SetRetryCount(n) with n < 0: `MaxRetries >= 0` never holds
   fuel : Nat := 0                     -- unbounded only: how many attempts the script describes (model artefact)
   ctxDone : List Bool := []           -- per attempt: the request's context is done when the wait before the NEXT attempt begins
+  /-- code variant, kept here so that `clientRoundTrip` needs no further parameter: `true` = the
+  code with fixes/C18-3-digest-download.patch (the model follows it), `false` = the code as found
+  (the 401 challenge is what `SetOutput` saves, the answer to the authorized request never is) -/
+  fixDigestSave : Bool := true
   deriving Repr, Inhabited
 
 def Stack.udAt (s : Stack) (a : Nat) : List ReqAct := s.udReq.map (·.getD a .ok)
@@ -196,21 +201,45 @@ def parseResp (s : Stack) (r : Resp) : Parsed :=
     ret := o.err,
     evs := unmEv o.codec ++ newErrEv o.err r.err }
 
+/-- The error `saveResponse` (the working part of `handleDownload`) returns: nothing without
+an http response or when the response is not to be saved; otherwise the body — the cached one,
+else `r.Body` read directly, WITHOUT the body transformer and without caching — is copied to the
+output, and a failure to create / write the output or to read the body is returned. `resp.Err`
+is not consulted. (Both failing at once: the model answers `output`; which one `io.Copy` meets
+first depends on the body length, the lanes do not combine them.) -/
+def saveErr (s : Stack) (a : Nat) (r : Resp) : Option Err :=
+  match r.http with
+  | none => none
+  | some h =>
+    if s.save = false then none
+    else if s.outFailAt a then some .output
+    else if r.bodyCached = false ∧ h.readOK = false then some .read
+    else none
+
+/-- The body of this response went to the output. -/
+def saved (s : Stack) (a : Nat) (r : Resp) : Bool :=
+  s.save && r.http.isSome && (saveErr s a r).isNone
+
+/-- A 401 that carries a Digest challenge, in an attempt whose request has the digest
+middleware installed: the response that middleware is going to replace by the answer to the
+authorized request (`isDigestChallenge` + `Request.digestAuth` of fixes/C18-3). -/
+def digestChallenged (s : Stack) (a : Nat) (h : Http) : Bool :=
+  h.status == 401 && (s.reqRespAt a).any fun
+    | .digest true _ => true
+    | _ => false
+
 /-- `handleDownload`, the second built-in element of the client loop (`SetOutput` /
-`SetOutputFile`): nothing without an http response or when the response is not to be saved;
-otherwise the body — the cached one, else `r.Body` read directly, WITHOUT the body transformer
-and without caching — is copied to the output; a failure to create / write the output or to
-read the body is returned (and so recorded in `resp.Err` by the loop, replacing what was there).
-`resp.Err` is not consulted. (Both failing at once: the model answers `output`; which one
-`io.Copy` meets first depends on the body length, the lanes do not combine them.) -/
+`SetOutputFile`): `saveResponse`, whose error the loop records in `resp.Err` (replacing what was
+there) — except, in the repaired code, for a digest challenge that is going to be answered: that
+body is not what the caller asked to save. -/
 def download (s : Stack) (a : Nat) (r : Resp) : Resp × List Ev :=
   match r.http with
   | none => (r, [])
   | some h =>
-    if s.save = false then (r, [])
-    else if s.outFailAt a then ({ r with err := some .output }, [.raised .output])
-    else if r.bodyCached = false ∧ h.readOK = false then ({ r with err := some .read }, [.raised .read])
-    else (r, [])
+    if s.fixDigestSave = true ∧ digestChallenged s a h = true then (r, [])
+    else match saveErr s a r with
+      | some e => ({ r with err := some e }, [.raised e])
+      | none => ({ r with savedOf := if saved s a r then some r.tag else r.savedOf }, [])
 
 /-- One user response middleware in the CLIENT loop: `if e := f(c, resp); e != nil { resp.Err = e }`. -/
 def clientAct (r : Resp) : RespAct → Resp × List Ev
@@ -309,13 +338,20 @@ inductive StepOut
   deriving Repr
 
 /-- Repaired digest middleware: auto-read and bind the final response like `Client.roundTrip`
-does, returning what `parseResponseBody` returns. -/
-def rebind (s : Stack) (r1 : Resp) : StepOut :=
+does, returning what `parseResponseBody` returns; then (fixes/C18-3) save it like
+`handleDownload` would, returning what `saveResponse` returns. -/
+def rebind (s : Stack) (a : Nat) (r1 : Resp) : StepOut :=
   let (r2, e1) := autoRead s r1
   let p := parseResp s r2
   match p.ret with
   | some e => .stop (some p.resp) e (.resend :: e1 ++ p.evs)
-  | none => .cont (some p.resp) (.resend :: e1 ++ p.evs)
+  | none =>
+    if s.fixDigestSave then
+      match saveErr s a p.resp with
+      | some e => .stop (some p.resp) e (.resend :: e1 ++ p.evs ++ [.raised e])
+      | none => .cont (some { p.resp with savedOf := if saved s a p.resp then some p.resp.tag else p.resp.savedOf })
+                  (.resend :: e1 ++ p.evs)
+    else .cont (some p.resp) (.resend :: e1 ++ p.evs)
 
 /-- Repaired digest middleware: what was read and bound from the 401 is forgotten before the
 second exchange. -/
@@ -327,7 +363,7 @@ def digestResend (fx : Fixes) (s : Stack) (a : Nat) (r0 : Resp) : TOut → StepO
   | .fail e => .stop (some { r0 with http := none }) e [.resend, .raised e]
   | .resp h2 =>
     let r1 : Resp := { r0 with http := some h2, tag := 2 * a + 1 }
-    if fx.digestRebind then rebind s r1 else .cont (some r1) [.resend]
+    if fx.digestRebind then rebind s a r1 else .cont (some r1) [.resend]
 
 /-- `handleDigestAuthFunc` on a non-nil response. -/
 def digestStep (fx : Fixes) (s : Stack) (a : Nat) (chalOK : Bool) (re : TOut) (r : Resp) : StepOut :=
